@@ -30,7 +30,7 @@ func isHalted(s *store) bool {
 }
 
 // c14HaltingBlock crafts a block that must make the store detect an inconsistency
-func c14HaltingBlock(h *history, mode int) (aggsync.Block, string) {
+func c14HaltingBlock(h *history, mode int, forceDC ...uint32) (aggsync.Block, string) {
 	g := h.g
 	num := h.lastNum() + 1 + uint64(g.Intn(3))
 	b := aggsync.Block{Num: num, Hash: world.BlockHash(h.salt, num)}
@@ -39,6 +39,12 @@ func c14HaltingBlock(h *history, mode int) (aggsync.Block, string) {
 		next := uint32(len(world.BridgesOf(h.blocks)))
 		var dc uint32
 		var why string
+		if len(forceDC) > 0 {
+			bad := world.RandBridge(g, forceDC[0])
+			bad.BlockNum, bad.BlockPos = num, 0
+			b.Events = append(b.Events, bridgesync.Event{Bridge: bad})
+			return b, "deposit-count-gap-to-the-count-before-a-reorg"
+		}
 		switch mode % 3 {
 		case 0:
 			dc, why = next+1, "gap+1"
@@ -141,13 +147,31 @@ func TestC14(t *testing.T) {
 					return
 				}
 			}
+			// a third of the bridge cases: a reorg first removes deposits; the inconsistent block then
+			// carries the deposit count that would have been next on the dropped fork (a gap on the
+			// surviving history, which is the only history the node may remember)
+			var force []uint32
+			var dropped0 []aggsync.Block
+			if kind == "bridge" && i%3 == 2 && len(h.blocks) > 2 {
+				nBefore := len(world.BridgesOf(h.blocks))
+				rb0 := h.blocks[1+g.Intn(len(h.blocks)-1)].Num
+				if err := A.Reorg(rb0); err != nil {
+					r.Violation("C14:"+kind+":reorg-error", caseID, fmt.Sprintf("Reorg(%d): %v", rb0, err), sc)
+					return
+				}
+				dropped0 = h.truncate(rb0)
+				trace = append(trace, fmt.Sprintf("reorg(%d) before the inconsistency", rb0))
+				if len(world.BridgesOf(h.blocks)) < nBefore {
+					force = []uint32{uint32(nBefore)}
+				}
+			}
 			// pools while the store still answers (valid arguments)
 			pools := poolsFor(kind, g, h.all, A, nil)
 			calls, _ := buildCalls(A.Facade, facadeExclude, pools, g, 25)
 			before := askAll(A.Facade, calls)
 			fp0, _ := dbFingerprint(A.DB)
 
-			hb, cause := c14HaltingBlock(h, i)
+			hb, cause := c14HaltingBlock(h, i, force...)
 			trace = append(trace, fmt.Sprintf("halting block %s (%s)", blockSummary(kind, []aggsync.Block{hb})[0], cause))
 			err = A.Process(hb)
 			if !errors.Is(err, aggsync.ErrInconsistentState) {
@@ -269,7 +293,7 @@ func TestC14(t *testing.T) {
 				dropped = h.truncate(rb)
 			}
 			// rows deleted by an event of a dropped block are C04's known finding, not C14's subject
-			skipMethod, _ := c04KnownCause(kind, h.blocks, dropped)
+			skipMethod, _ := c04KnownCause(kind, h.blocks, append(dropped0, dropped...))
 			B, err := newStore(kind, "c14B")
 			if err != nil {
 				r.Inconclusive("cannot open store: " + err.Error())
